@@ -17,6 +17,8 @@ import os
 import re
 from html.parser import HTMLParser
 
+from packaging.version import Version
+
 from ..common import Ctx, S, unS, run_model, known_matcher, canon, VERIF
 from .. import trees
 
@@ -64,6 +66,7 @@ W_CLOSE = ("serialised element: an end-tag-like '</script' (some letter case) oc
            "payload before the element's own closing tag")
 W_PARSER = "serialised element: an HTML tokenizer (html.parser) does not give back an equal dependency"
 W_JSON = "serialised element: json.loads of the payload does not reconstruct an equal dependency"
+W_AGAIN = "serialised element: serialising the recovered dependency again gives a different element"
 W_EXTRACT = "extraction: remaining text or recovered dependencies differ from the specification"
 W_RENDER = "render: not exactly the first placeholder occurrence replaced by the dependency markup"
 W_PIPE = "json-mode str() + HTMLTextDocument differs from direct HTMLDocument rendering"
@@ -107,16 +110,96 @@ def no_nul(s: str) -> str:
     return s.replace("\x00", "0")
 
 
-def rand_head(rng):
+# Whitespace a head's markup (or any field) may begin / end with or consist of.  The serialised form
+# carries the head as ONE markup string, so the recovered dependency is built from a plain str
+# whatever the original head was built from; "head as identical markup" must hold for every way of
+# giving a head, in particular where the two constructor routes could treat the text differently
+# (edge / interior / only whitespace, empty markup, indentation, line-break styles, entity text).
+HEAD_WS = [" ", "\n", "\t", "\r\n", "\r", "\x0c", "\x0b", "\xa0", "\u2028", "\u3000", "\ufeff", "  ", "\n    ", "    ",
+           "\x1c", "\x85"]
+HEAD_BODIES = ["<title>T</title>", "<style>p{}</style>", "<!-- banner -->", "<meta name='x'>", "x", "", "a  b",
+               "&amp;", "&", "<style>\n    p {}\n    q {}\n  </style>", "a\tb", "a\r\nb", "<script>1 && 1</script>",
+               "    l1\n    l2", "&#32;", "\\n"]
+TITLE = ("G", "title", False, [], [("T", "T")])
+INDENTS = [None, None, 0, 2, 4, 1, 3, 8]
+
+
+def rand_ws(rng) -> str:
+    return "".join(rng.choice(HEAD_WS) for _ in range(rng.choice([1, 1, 2, 3])))
+
+
+def ws_text(rng) -> str:
     r = rng.random()
-    if r < 0.3:
+    if r < 0.2:
+        return rand_ws(rng)
+    if r < 0.8:
+        return (rand_ws(rng) if rng.random() < 0.6 else "") + rng.choice(HEAD_BODIES) + \
+               (rand_ws(rng) if rng.random() < 0.6 else "")
+    return hostile(rng, 2)
+
+
+def rand_head_kids(rng) -> list:
+    kids = []
+    for _ in range(rng.choice([0, 1, 1, 2, 2, 3])):
+        r = rng.random()
+        if r < 0.3:
+            kids.append(trees.rand_tree(rng, rng.choice([0, 1]), leaves="TH", names="bisv"))
+        else:
+            kids.append((rng.choice("TTHHR"), ws_text(rng)))
+    return kids
+
+
+HEAD_WRAPS = ["taglist", "pylist", "tuple", "nested", "single"]
+
+
+def rand_head(rng):
+    """a head in one of the forms the constructor accepts: nothing, a plain str (or str subclass)
+    taken as markup, HTML(), a self-rendering object, a Tag, a TagList / list / tuple / nested TagList
+    of text, HTML() and Tag children"""
+    r = rng.random()
+    if r < 0.22:
         return None
-    if r < 0.7:
+    if r < 0.42:
         return ["html", hostile(rng, 3)]
-    if r < 0.85:
+    if r < 0.5:
+        return [rng.choice(["html", "strsub"]), ws_text(rng)]
+    if r < 0.62:
+        return ["H", ws_text(rng) if rng.random() < 0.7 else hostile(rng, 3)]
+    if r < 0.8:
+        return ["kids", rng.choice(HEAD_WRAPS), rand_head_kids(rng)]
+    if r < 0.9:
         return ["tree", trees.rand_tree(rng, rng.choice([0, 1, 2]), leaves="TTHR", names="bisc")]
     return ["list", [trees.rand_tree(rng, rng.choice([0, 1]), leaves="TH", names="sbv")
                      for _ in range(rng.randrange(0, 3))]]
+
+
+def head_family():
+    """every edge-whitespace form x every way of giving a head (bounded-exhaustive, small)"""
+    body = "<title>T</title>"
+    for ws in HEAD_WS:
+        for t in (ws + body, body + ws, ws + body + ws, ws):
+            yield ["html", t]
+            yield ["H", t]
+            yield ["kids", "single", [("R", t)]]
+            yield ["kids", "taglist", [("T", t)]]
+        yield ["kids", "taglist", [("T", ws), TITLE]]
+        yield ["kids", "pylist", [TITLE, ("T", ws)]]
+        yield ["kids", "tuple", [("H", ws), TITLE, ("H", ws)]]
+        yield ["kids", "nested", [("H", ws), ("H", body)]]
+        yield ["kids", "nested", [("H", body), TITLE, ("T", ws)]]
+    for b in HEAD_BODIES:
+        yield ["H", b]
+        yield ["kids", "pylist", [("T", b)]]
+        yield ["kids", "single", [("R", b)]]
+    yield ["html", ""]
+    yield ["strsub", ""]
+    yield ["strsub", " x "]
+    yield ["kids", "taglist", []]
+    yield ["kids", "pylist", []]
+    yield ["kids", "tuple", []]
+    yield ["kids", "nested", []]
+    yield ["kids", "taglist", [("T", "")]]
+    yield ["kids", "taglist", [("H", ""), ("H", "")]]
 
 
 def rand_dep(rng, *, renderable: bool = False, name: str | None = None) -> dict:
@@ -156,10 +239,20 @@ def rand_dep(rng, *, renderable: bool = False, name: str | None = None) -> dict:
         if rng.random() < 0.2:
             d[rng.choice(["charset", "http-equiv"])] = h(1)
         metas.append(d)
-    return {"name": name if name is not None else (h() if rng.random() < 0.75 else rng.choice(TAME)),
-            "version": rng.choice(VERSIONS), "source": source, "script": scripts,
-            "stylesheet": sheets, "meta": metas, "all_files": rng.random() < 0.3,
-            "head": rand_head(rng)}
+    def shape(l):
+        # the constructor takes a list of records, a single record, or nothing
+        if len(l) == 1 and rng.random() < 0.35:
+            return l[0]
+        if not l and rng.random() < 0.3:
+            return None
+        return l
+    d = {"name": name if name is not None else (h() if rng.random() < 0.75 else rng.choice(TAME)),
+         "version": rng.choice(VERSIONS), "source": source, "script": shape(scripts),
+         "stylesheet": shape(sheets), "meta": shape(metas), "all_files": rng.random() < 0.3,
+         "head": rand_head(rng)}
+    if rng.random() < 0.15:
+        d["version_obj"] = True          # version given as a packaging Version, not a str
+    return d
 
 
 def simple_dep(field: str, s: str) -> dict:
@@ -204,8 +297,23 @@ def build_head(h):
         return None
     if h[0] == "html":
         return h[1]
+    if h[0] == "strsub":
+        return trees.StrSub(h[1])
+    if h[0] == "H":
+        return trees.build(("H", h[1]))
     if h[0] == "tree":
         return trees.build(tuplify(h[1]))
+    if h[0] == "kids":
+        kids = [trees.build(tuplify(x)) for x in h[2]]
+        if h[1] == "pylist":
+            return kids
+        if h[1] == "tuple":
+            return tuple(kids)
+        if h[1] == "nested":
+            return TagList(TagList(*kids[:1]), [kids[1:]])
+        if h[1] == "single" and len(kids) == 1:
+            return kids[0]
+        return TagList(*kids)
     return TagList(*[trees.build(tuplify(x)) for x in h[1]])
 
 
@@ -222,7 +330,8 @@ def tuplify(d):
 
 
 def build_dep(d: dict) -> HTMLDependency:
-    return HTMLDependency(d["name"], d["version"], source=copy.deepcopy(d["source"]),
+    version = Version(d["version"]) if d.get("version_obj") else d["version"]
+    return HTMLDependency(d["name"], version, source=copy.deepcopy(d["source"]),
                           script=copy.deepcopy(d["script"]), stylesheet=copy.deepcopy(d["stylesheet"]),
                           meta=copy.deepcopy(d["meta"]), all_files=d["all_files"],
                           head=build_head(d["head"]))
@@ -333,6 +442,10 @@ def oracle_element(case, out):
         got = f"{type(ex).__name__}: {ex}"
     if got != want:
         return (W_JSON, {"reconstructed": got, "original": want})
+    # an equal dependency has the same serialised form (the same fields, serialised the same way)
+    again = safe_call(lambda: dep_from_payload(payload).serialize_to_script_json(indent=case["indent"]).get_html_string())
+    if again != ("ok", e):
+        return (W_AGAIN, {"first": e, "second": again})
     if spec_has_close_tag(payload):
         i = ascii_lower(payload).find("</script")
         return (W_CLOSE, {"at": i, "context": payload[max(0, i - 12):i + 14]})
@@ -518,8 +631,12 @@ def run(ctx: Ctx) -> None:
         "drawn from fragments (quotes, backslashes, newlines, controls, "
         "non-ASCII, astral, '</script' in all 64 letter cases with 9 tails, '<!--', '<script>', the opening "
         "tag literal, placeholders); dependencies: random records with such strings in name, source, script / "
-        "stylesheet / meta entries and head (raw markup, Tag trees, script tags), serialised with indent in "
-        "{None,0,2,4}, after the corpus (the '</SCRIPT>' family of fixed finding F3); documents: 0-6 serialised "
+        "stylesheet / meta entries and head (given as a plain str / str subclass, HTML(), a self-rendering object, a "
+        "Tag, a TagList / list / tuple / nested TagList of text, HTML() and Tag children; markup with leading / "
+        "trailing / only / no whitespace of 16 kinds incl. CR LF, form feed, NBSP, U+2028, indentation; empty "
+        "markup; every such form x every way of giving a head enumerated), script / stylesheet / meta given as a "
+        "list, one record or None, version as str or Version, serialised with indent in "
+        "{None,0,1,2,3,4,8}, after the corpus (the '</SCRIPT>' family of fixed finding F3); documents: 0-6 serialised "
         "copies of 1-3 dependencies (duplicates, different indents) "
         "interleaved with hostile text free of the opening tag; placeholders occurring 0-3 times, also "
         "overlapping and empty; pipelines: random tag trees holding dependencies rendered in json mode and "
@@ -626,9 +743,17 @@ def run(ctx: Ctx) -> None:
             ser_cases.append({"kind": "serialise", "dep": simple_dep(f, "x</" + v + t + "y"), "indent": None})
     for f in SIMPLE_FIELDS:
         for s in FRAGS:
-            ser_cases.append({"kind": "serialise", "dep": simple_dep(f, s), "indent": rng.choice([None, 0, 2, 4])})
+            ser_cases.append({"kind": "serialise", "dep": simple_dep(f, s), "indent": rng.choice(INDENTS)})
+    # edge whitespace in every field, and every way of giving a head x every edge-whitespace form
+    for f in SIMPLE_FIELDS:
+        for ws in HEAD_WS:
+            ser_cases.append({"kind": "serialise", "dep": simple_dep(f, ws + "x" + ws), "indent": rng.choice(INDENTS)})
+    for hd in head_family():
+        d = simple_dep("name", "a")
+        d["head"] = hd
+        ser_cases.append({"kind": "serialise", "dep": d, "indent": rng.choice(INDENTS)})
     for _ in range(ctx.budget(800, 25000)):
-        ser_cases.append({"kind": "serialise", "dep": rand_dep(rng), "indent": rng.choice([None, 0, 2, 4])})
+        ser_cases.append({"kind": "serialise", "dep": rand_dep(rng), "indent": rng.choice(INDENTS)})
     if not ctx.quick:
         for n in range(0, 5):
             for t in itertools.product('</\\"sS>', repeat=n):
@@ -654,7 +779,7 @@ def run(ctx: Ctx) -> None:
     for _ in range(ctx.budget(600, 15000)):
         pool = [rand_dep(rng) for _ in range(rng.choice([1, 1, 2, 3]))]
         n = rng.choice([0, 1, 2, 2, 3, 4, 6])
-        items = [(rng.randrange(len(pool)), rng.choice([None, None, 0, 2, 4])) for _ in range(n)]
+        items = [(rng.randrange(len(pool)), rng.choice(INDENTS)) for _ in range(n)]
         doc_cases.append({"kind": "doc", "pool": pool, "items": items,
                           "texts": [rand_text_noopen() for _ in range(n + 1)]})
     doc_cases, doc_exp = precompute("serialize_to_script_json() while assembling the document", doc_cases,
